@@ -1,4 +1,7 @@
 import EaselModel.Msafile.AfaLemmas
+import EaselModel.Msafile.A2mLemmas
+import EaselModel.Msafile.ClustalLemmas
+import EaselModel.Msafile.PsiblastLemmas
 import EaselModel.Msafile.AbcTables
 /-! # C01 — alignment input is total: property theorems (statements + glue; lemmas live in `Msafile/*Lemmas.lean`)
 
@@ -8,7 +11,7 @@ format-or-alphabet undetermined); never a crash, out-of-object access, UB, leak 
 returned with success is well formed.
 
 PARTIAL at this revision: the theorems below cover the formats whose reader is modelled (`MODELLED` in props/c01.py:
-aligned FASTA), declared format, text mode and digital mode with a supplied alphabet, for EVERY byte string (no size
+aligned FASTA, A2M, Clustal, Clustal-like, PSI-BLAST), declared format, text mode and digital mode with a supplied alphabet, for EVERY byte string (no size
 bound).  The other formats, autodetection and alphabet guessing are covered by the harness monitors only (support, not
 proof); leaks are outside the model. `Good r` is: `ok m ⇒ m.wellFormed`, `eof`, `eformat msg ⇒ msg ≠ ""`; `fault`
 (out-of-bounds access of the bounds-checked model) and `exc` (ESL_EXCEPTION) are NOT good. -/
@@ -98,5 +101,177 @@ example : (afaRead (afaCfg (some abcDna)) (splitLines exRagged)).1 matches .efor
 example : (afaRead (afaCfg none) (splitLines [12])).1 matches .eformat _ := by decide +kernel     -- "\f": DESIGN §7 item 5, fixed behaviour
 example : (afaRead (afaCfg none) (splitLines [])).1 matches .eof := by decide +kernel
 example : afaCfg (some abcAmino) ∈ afaConfigs := by simp [afaConfigs]
+
+/-! ## A2M (`esl_msafile_a2m_Read` + `a2m_padding_text` / `a2m_padding_digital`) -/
+
+/-- the four A2M configurations are valid: the input map of `esl_msafile_a2m_SetInmap` emits only storable symbols and
+    cannot trigger `ESL_EXCEPTION`; and (`A2mValid`) it stores a residue for exactly the bytes the `csflag` loop flags
+    (NUL excepted, which the loop rejects), and the padding symbol (`'.'` / the gap code) is storable -/
+theorem a2m_cfg_text_valid : (a2mCfg none).valid := ⟨by decide +kernel, by decide +kernel⟩
+theorem a2m_cfg_amino_valid : (a2mCfg (some abcAmino)).valid := ⟨by decide +kernel, by decide +kernel⟩
+theorem a2m_cfg_dna_valid : (a2mCfg (some abcDna)).valid := ⟨by decide +kernel, by decide +kernel⟩
+theorem a2m_cfg_rna_valid : (a2mCfg (some abcRna)).valid := ⟨by decide +kernel, by decide +kernel⟩
+theorem a2m_cfg_text_sync : A2mValid (a2mCfg none) := ⟨by decide +kernel, by decide +kernel⟩
+theorem a2m_cfg_amino_sync : A2mValid (a2mCfg (some abcAmino)) := ⟨by decide +kernel, by decide +kernel⟩
+theorem a2m_cfg_dna_sync : A2mValid (a2mCfg (some abcDna)) := ⟨by decide +kernel, by decide +kernel⟩
+theorem a2m_cfg_rna_sync : A2mValid (a2mCfg (some abcRna)) := ⟨by decide +kernel, by decide +kernel⟩
+
+def a2mConfigs : List Cfg := [a2mCfg none, a2mCfg (some abcAmino), a2mCfg (some abcDna), a2mCfg (some abcRna)]
+
+theorem a2mConfigs_valid : ∀ cfg ∈ a2mConfigs, cfg.valid ∧ A2mValid cfg := by
+  intro cfg h
+  simp only [a2mConfigs, List.mem_cons, List.mem_nil_iff, or_false] at h
+  rcases h with h | h | h | h <;> subst h
+  · exact ⟨a2m_cfg_text_valid, a2m_cfg_text_sync⟩
+  · exact ⟨a2m_cfg_amino_valid, a2m_cfg_amino_sync⟩
+  · exact ⟨a2m_cfg_dna_valid, a2m_cfg_dna_sync⟩
+  · exact ⟨a2m_cfg_rna_valid, a2m_cfg_rna_sync⟩
+
+/-- **A2M, every byte string, text and digital**: one `esl_msafile_Read` returns ok with a well-formed alignment, eof, or
+    eformat with a non-empty message. -/
+theorem a2m_total (cfg : Cfg) (hc : cfg ∈ a2mConfigs) (src : Bytes) : Good (a2mRead cfg (splitLines src)).1 :=
+  a2mRead_good cfg (a2mConfigs_valid cfg hc).1 (a2mConfigs_valid cfg hc).2 (splitLines src)
+
+/-- … in particular no access outside `csflag[]`, `this_nins[]`, `nins[]`, the old and the new rows (reader and padding
+    functions), no read of a never-written cell, and no internal exception -/
+theorem a2m_no_fault (cfg : Cfg) (hc : cfg ∈ a2mConfigs) (src : Bytes) :
+    (a2mRead cfg (splitLines src)).1 ≠ .fault ∧ (a2mRead cfg (splitLines src)).1 ≠ .exc := by
+  have h := a2m_total cfg hc src
+  constructor <;> intro hr <;> rw [hr] at h <;> exact h
+
+theorem a2m_eformat_has_message (cfg : Cfg) (hc : cfg ∈ a2mConfigs) (src : Bytes) (msg : String)
+    (h : (a2mRead cfg (splitLines src)).1 = .eformat msg) : msg ≠ "" := by
+  have hg := a2m_total cfg hc src
+  rw [h] at hg; exact hg
+
+/-- … an alignment returned with eslOK is well formed (rows of length `alen` = consensus + insert columns, `rf` of length
+    `alen`, default weights), and nothing is left unread -/
+theorem a2m_ok_wellformed (cfg : Cfg) (hc : cfg ∈ a2mConfigs) (src : Bytes) (m : Msa)
+    (h : (a2mRead cfg (splitLines src)).1 = .ok m) :
+    m.wellFormed = true ∧ (a2mRead cfg (splitLines src)).2 = [] := by
+  have hg := a2m_total cfg hc src
+  rw [h] at hg
+  exact ⟨hg, (a2mRead_ok_consumes cfg _ m h).1⟩
+
+theorem a2m_read_all_total (cfg : Cfg) (hc : cfg ∈ a2mConfigs) (src : Bytes) :
+    Good (a2mRead cfg (splitLines src)).1 ∧
+    (∀ m, (a2mRead cfg (splitLines src)).1 = .ok m → (a2mRead cfg (a2mRead cfg (splitLines src)).2).1 = .eof) :=
+  ⟨a2m_total cfg hc src, fun m h => (a2mRead_ok_consumes cfg _ m h).2⟩
+
+/-- ">a\nAc\n>b d\na\nA.\n" -/
+def exA2m : Bytes := [62,97,10,65,99,10,62,98,32,100,10,97,10,65,46,10]
+/-- ">a\nAA\n>b\nA\n" (different number of consensus columns) -/
+def exA2mBad : Bytes := [62,97,10,65,65,10,62,98,10,65,10]
+/-- ">a\nAA\n>b\noA\nA\n": before the repair 74356f4 a heap over-read in `a2m_padding_text` (the `csflag` loop flagged
+    the `'o'` the input map ignores); ">a\nao\n": returned eslOK with a row shorter than `alen` -/
+def exA2mLowerO : Bytes := [62,97,10,65,65,10,62,98,10,111,65,10,65,10]
+def exA2mLowerO2 : Bytes := [62,97,10,97,111,10]
+/-- ">a\n\0\0\nA\n": before the repair, never-written `csflag` cells were read by the padding phase -/
+def exA2mNul : Bytes := [62,97,10,0,0,10,65,10]
+
+example : (a2mRead (a2mCfg none) (splitLines exA2m)).1 matches .ok _ := by decide +kernel
+example : (a2mRead (a2mCfg (some abcDna)) (splitLines exA2m)).1 matches .ok _ := by decide +kernel
+example : (a2mRead (a2mCfg (some abcDna)) (splitLines exA2mBad)).1 matches .eformat _ := by decide +kernel
+example : (a2mRead (a2mCfg none) (splitLines exA2mLowerO)).1 matches .ok _ := by decide +kernel
+example : (a2mRead (a2mCfg (some abcAmino)) (splitLines exA2mLowerO2)).1 matches .ok _ := by decide +kernel
+example : (a2mRead (a2mCfg none) (splitLines exA2mNul)).1 matches .eformat _ := by decide +kernel
+example : (a2mRead (a2mCfg none) (splitLines [])).1 matches .eof := by decide +kernel
+example : a2mCfg (some abcRna) ∈ a2mConfigs := by simp [a2mConfigs]
+
+
+/-! ## Clustal / Clustal-like and PSI-BLAST -/
+
+theorem clustal_cfg_text_valid : (clustalCfg none).valid := ⟨by decide +kernel, by decide +kernel⟩
+theorem clustal_cfg_amino_valid : (clustalCfg (some abcAmino)).valid := ⟨by decide +kernel, by decide +kernel⟩
+theorem clustal_cfg_dna_valid : (clustalCfg (some abcDna)).valid := ⟨by decide +kernel, by decide +kernel⟩
+theorem clustal_cfg_rna_valid : (clustalCfg (some abcRna)).valid := ⟨by decide +kernel, by decide +kernel⟩
+theorem psiblast_cfg_text_valid : (psiblastCfg none).valid := ⟨by decide +kernel, by decide +kernel⟩
+theorem psiblast_cfg_amino_valid : (psiblastCfg (some abcAmino)).valid := ⟨by decide +kernel, by decide +kernel⟩
+theorem psiblast_cfg_dna_valid : (psiblastCfg (some abcDna)).valid := ⟨by decide +kernel, by decide +kernel⟩
+theorem psiblast_cfg_rna_valid : (psiblastCfg (some abcRna)).valid := ⟨by decide +kernel, by decide +kernel⟩
+
+def clustalConfigs : List Cfg := [clustalCfg none, clustalCfg (some abcAmino), clustalCfg (some abcDna), clustalCfg (some abcRna)]
+def psiblastConfigs : List Cfg := [psiblastCfg none, psiblastCfg (some abcAmino), psiblastCfg (some abcDna), psiblastCfg (some abcRna)]
+
+theorem clustalConfigs_valid : ∀ cfg ∈ clustalConfigs, cfg.valid := by
+  intro cfg h
+  simp only [clustalConfigs, List.mem_cons, List.mem_nil_iff, or_false] at h
+  rcases h with h | h | h | h <;> subst h
+  · exact clustal_cfg_text_valid
+  · exact clustal_cfg_amino_valid
+  · exact clustal_cfg_dna_valid
+  · exact clustal_cfg_rna_valid
+
+theorem psiblastConfigs_valid : ∀ cfg ∈ psiblastConfigs, cfg.valid := by
+  intro cfg h
+  simp only [psiblastConfigs, List.mem_cons, List.mem_nil_iff, or_false] at h
+  rcases h with h | h | h | h <;> subst h
+  · exact psiblast_cfg_text_valid
+  · exact psiblast_cfg_amino_valid
+  · exact psiblast_cfg_dna_valid
+  · exact psiblast_cfg_rna_valid
+
+/-- **Clustal (`like = false`) and Clustal-like (`like = true`), every byte string, text and digital**: one `esl_msafile_Read`
+    returns ok with a well-formed alignment, eof, or eformat with a non-empty message; never an out-of-bounds access
+    (`msa->sqname[idx]`, `msa->aseq[idx]`/`msa->ax[idx]`, the name and sequence fields of the line) or an internal exception. -/
+theorem clustal_total (like : Bool) (cfg : Cfg) (hc : cfg ∈ clustalConfigs) (src : Bytes) :
+    Good (clustalRead like cfg (splitLines src)).1 :=
+  clustalRead_good like cfg (clustalConfigs_valid cfg hc) (splitLines src)
+
+theorem clustal_no_fault (like : Bool) (cfg : Cfg) (hc : cfg ∈ clustalConfigs) (src : Bytes) :
+    (clustalRead like cfg (splitLines src)).1 ≠ .fault ∧ (clustalRead like cfg (splitLines src)).1 ≠ .exc := by
+  have h := clustal_total like cfg hc src
+  constructor <;> intro hr <;> rw [hr] at h <;> exact h
+
+/-- **PSI-BLAST, every byte string, text and digital** (the returned alignment carries an RF line of length `alen`) -/
+theorem psiblast_total (cfg : Cfg) (hc : cfg ∈ psiblastConfigs) (src : Bytes) :
+    Good (psiblastRead cfg (splitLines src)).1 :=
+  psiblastRead_good cfg (psiblastConfigs_valid cfg hc) (splitLines src)
+
+theorem psiblast_no_fault (cfg : Cfg) (hc : cfg ∈ psiblastConfigs) (src : Bytes) :
+    (psiblastRead cfg (splitLines src)).1 ≠ .fault ∧ (psiblastRead cfg (splitLines src)).1 ≠ .exc := by
+  have h := psiblast_total cfg hc src
+  constructor <;> intro hr <;> rw [hr] at h <;> exact h
+
+/-- … an alignment returned with eslOK is well formed and nothing is left unread; the next read returns eslEOF -/
+theorem clustal_ok_wellformed (like : Bool) (cfg : Cfg) (hc : cfg ∈ clustalConfigs) (src : Bytes) (m : Msa)
+    (h : (clustalRead like cfg (splitLines src)).1 = .ok m) :
+    m.wellFormed = true ∧ (clustalRead like cfg (splitLines src)).2 = [] ∧
+      (clustalRead like cfg (clustalRead like cfg (splitLines src)).2).1 = .eof := by
+  have hg := clustal_total like cfg hc src
+  rw [h] at hg
+  exact ⟨hg, clustalRead_ok_consumes like cfg _ m h⟩
+
+theorem psiblast_ok_wellformed (cfg : Cfg) (hc : cfg ∈ psiblastConfigs) (src : Bytes) (m : Msa)
+    (h : (psiblastRead cfg (splitLines src)).1 = .ok m) :
+    m.wellFormed = true ∧ (psiblastRead cfg (splitLines src)).2 = [] ∧
+      (psiblastRead cfg (psiblastRead cfg (splitLines src)).2).1 = .eof := by
+  have hg := psiblast_total cfg hc src
+  rw [h] at hg
+  exact ⟨hg, psiblastRead_ok_consumes cfg _ m h⟩
+
+/-- "CLUSTAL alignment\n\na AC\nb GT\n  **\n\na A\nb G\n\n" : two blocks -/
+def exClustal : Bytes := [67,76,85,83,84,65,76,32,97,108,105,103,110,109,101,110,116,10,10,
+  97,32,65,67,10, 98,32,71,84,10, 32,32,42,42,10, 10, 97,32,65,10, 98,32,71,10, 10]
+/-- the same with a third row `c T` added to the second block only (the over-read repaired by the landed fix) -/
+def exClustalExtraRow : Bytes := [67,76,85,83,84,65,76,32,97,108,105,103,110,109,101,110,116,10,10,
+  97,32,65,67,10, 98,32,71,84,10, 32,32,42,42,10, 10, 97,32,65,10, 98,32,71,10, 99,32,84,10, 10]
+/-- "a ACg\nb A-g\n\na T\nb T\n" : two PSI-BLAST blocks, third column lower case -/
+def exPsi : Bytes := [97,32,65,67,103,10, 98,32,65,45,103,10, 10, 97,32,84,10, 98,32,84,10]
+/-- "a AC\nb Ac\n" : case conflict in column 2 -/
+def exPsiCase : Bytes := [97,32,65,67,10, 98,32,65,99,10]
+
+example : (clustalRead false (clustalCfg none) (splitLines exClustal)).1 matches .ok _ := by decide +kernel
+example : (clustalRead true (clustalCfg (some abcDna)) (splitLines exClustal)).1 matches .ok _ := by decide +kernel
+example : (clustalRead false (clustalCfg none) (splitLines exClustalExtraRow)).1 matches .eformat _ := by decide +kernel
+example : (clustalRead false (clustalCfg none) (splitLines exPsi)).1 matches .eformat _ := by decide +kernel       -- no header
+example : (clustalRead false (clustalCfg none) (splitLines [])).1 matches .eof := by decide +kernel
+example : (psiblastRead (psiblastCfg none) (splitLines exPsi)).1 matches .ok _ := by decide +kernel
+example : (psiblastRead (psiblastCfg (some abcDna)) (splitLines exPsi)).1 matches .ok _ := by decide +kernel
+example : (psiblastRead (psiblastCfg none) (splitLines exPsiCase)).1 matches .eformat _ := by decide +kernel
+example : (psiblastRead (psiblastCfg none) (splitLines [10, 32, 10])).1 matches .eof := by decide +kernel
+example : clustalCfg (some abcAmino) ∈ clustalConfigs := by simp [clustalConfigs]
+example : psiblastCfg (some abcRna) ∈ psiblastConfigs := by simp [psiblastConfigs]
+
 
 end EaselModel.Props.C01
